@@ -20,3 +20,6 @@ pub use companion::BasicDataCompanion;
 pub use basic::NoOpCompanion;
 
 pub use basic::*;
+
+#[cfg(feature = "verif-hooks")]
+pub use storage::{ReallocationStrategy, StorageSettings};
